@@ -15,6 +15,8 @@ def run(ctx):
                 "streams through the real read loops (shared with C08)")
     netprops.op_level(ctx, res, PROP, ctx.budget(350, 18000, 500), profile={"cut": True})
     netprops.run_scenarios(ctx, res, netprops.scenario_cut, ctx.budget(250, 60000, 800), "cut")
+    # "plus real SIGKILLs at generated moments": a real worker process killed while it streams
+    netprops.process_level_kill(ctx, res, nruns=ctx.budget(3, 24, 8))
     try:
         from . import c08
         if hasattr(c08, "byte_level_cuts"):
